@@ -170,4 +170,46 @@ theorem leaves_eq_fieldsOf {e : Entry} {b : Bytes} {r : Resp} (hl : lenGate e b 
 theorem find_cls : ∀ e ∈ registry, (registry.find? (fun x => x.cls == e.cls)).map layoutOf = some (layoutOf e) := by
   decide +kernel
 
+/-! ### what `recsAt` is: the i-th record sits at its ISO position -/
+
+theorem recsFuel_length (w : Nat) : ∀ (f : Nat) (b : Bytes), b.length ≤ f → (recsFuel w f b).length = b.length / (w + 1) := by
+  intro f
+  induction f with
+  | zero => intro b hb; have : b = [] := List.eq_nil_of_length_eq_zero (by omega); subst this; simp [recsFuel]
+  | succ f ih =>
+    intro b hb
+    unfold recsFuel
+    split
+    · rename_i hlt
+      simp [Nat.div_eq_of_lt hlt]
+    · rename_i hge
+      have hl : (b.drop (w + 1)).length ≤ f := by simp; omega
+      have hdiv := Nat.div_eq_sub_div (show 0 < w + 1 by omega) (show w + 1 ≤ b.length by omega)
+      simp only [List.length_cons, ih _ hl, List.length_drop]
+      rw [hdiv]
+
+theorem recsFuel_getElem (w : Nat) : ∀ (f : Nat) (b : Bytes) (i : Nat), b.length ≤ f → (hi : i < (recsFuel w f b).length) →
+    (recsFuel w f b)[i] = (fromBE (slice b ((w + 1) * i) w), (b.getD ((w + 1) * i + w) 0).toNat) := by
+  intro f
+  induction f with
+  | zero => intro b i hb hi; simp [recsFuel] at hi
+  | succ f ih =>
+    intro b i hb hi
+    unfold recsFuel at hi ⊢
+    split at hi
+    · simp at hi
+    · rename_i hge
+      simp only [hge, if_false]
+      have hl : (b.drop (w + 1)).length ≤ f := by simp; omega
+      cases i with
+      | zero => simp [slice]
+      | succ j =>
+        have hj : j < (recsFuel w f (b.drop (w + 1))).length := by simpa using hi
+        have := ih _ j hl hj
+        simp only [List.getElem_cons_succ, this, slice, List.drop_drop, List.getD_eq_getElem?_getD, List.getElem?_drop]
+        have e1 : w + 1 + (w + 1) * j = (w + 1) * (j + 1) := by rw [Nat.mul_succ]; omega
+        have e2 : w + 1 + ((w + 1) * j + w) = (w + 1) * (j + 1) + w := by rw [Nat.mul_succ]; omega
+        rw [e1, e2]
+
+
 end Gallia.UdsResp
